@@ -613,6 +613,77 @@ func TestVerifC16(t *testing.T) {
 		}
 	}
 
+	// 5b. edited sequences: a base sequence and a copy with 1-3 local edits (runs deleted, inserted, or replaced by a run
+	// of another length), as strings, bytes, tuples and lists -- scripts with replace edits next to adds/deletes
+	for i := 0; i < nRand; i++ {
+		n := 4 + rng.Intn(11)
+		base := make([]starlark.Value, n)
+		for j := range base {
+			base[j] = c16int(rng.Intn(4))
+		}
+		edited := append([]starlark.Value{}, base...)
+		for e := 1 + rng.Intn(3); e > 0; e-- {
+			pos := rng.Intn(len(edited) + 1)
+			del := rng.Intn(4)
+			if pos+del > len(edited) {
+				del = len(edited) - pos
+			}
+			ins := make([]starlark.Value, rng.Intn(5))
+			for j := range ins {
+				ins[j] = c16int(4 + rng.Intn(3)) // letters the base does not use
+			}
+			edited = append(append(append([]starlark.Value{}, edited[:pos]...), ins...), edited[pos+del:]...)
+		}
+		x, y := base, edited
+		if rng.Intn(2) == 0 {
+			x, y = edited, base
+		}
+		switch i % 4 {
+		case 0:
+			g.pair("edited-string", c16string(x), c16string(y))
+		case 1:
+			g.pair("edited-bytes", c16bytesv(x), c16bytesv(y))
+		case 2:
+			g.pair("edited-tuple", c16tuple(x), c16tuple(y))
+		default:
+			g.pair("edited-list", c16list(x), c16list(y))
+		}
+	}
+
+	// 5c. directed: a changed run that grows locally (d elements replaced by a > d) while the whole sequence shrinks or
+	// stays (extra tail deleted), and the mirror images: replace edits adjacent to adds and deletes, in both orientations
+	mkseq := func(letters ...int) []starlark.Value {
+		r := make([]starlark.Value, len(letters))
+		for i, l := range letters {
+			r[i] = c16int(l)
+		}
+		return r
+	}
+	for d := 1; d <= 3; d++ {
+		for a := 1; a <= 5; a++ {
+			for extra := 0; extra <= 4; extra += 2 {
+				var x, y []int
+				x = append(x, 0, 1)
+				y = append(y, 0, 1)
+				for i := 0; i < d; i++ {
+					x = append(x, 2)
+				}
+				for i := 0; i < a; i++ {
+					y = append(y, 4+i%2)
+				}
+				x = append(x, 3, 0)
+				y = append(y, 3, 0)
+				for i := 0; i < extra; i++ {
+					x = append(x, 1+i%3)
+				}
+				for _, mk := range []c16mk{c16string, c16bytesv, c16tuple, c16list} {
+					g.pair("directed-grow", mk(mkseq(x...)), mk(mkseq(y...)))
+					g.pair("directed-grow", mk(mkseq(y...)), mk(mkseq(x...)))
+				}
+			}
+		}
+	}
+
 	// 6. route-table exhaustion (more than defaultRouteSize snake points): oracle only
 	if big > 0 {
 		for _, sh := range [][2]int{{1500, 1500}, {1300, 1700}, {1700, 1450}} {
